@@ -17,6 +17,7 @@ V = [
     "*e* **s**", "`c`", "[l](/u)", "![i](/s)", "<http://x.y>", "&amp; &#0; &#xD800;", "&#35;",
     ">\t- x", "-\t\tx", "  \tfoo", "x\x00y", "a\rb", "é  z",
     "[", "![", "](", "[[[[", "****a", "__a__b_", "~~s~~", "1986. x", "\\# n",
+    " ```", "\t2. y", "   16. b", "² x",
 ]
 assert len(V) == len(set(V)), "duplicate line shapes"
 
@@ -61,6 +62,20 @@ def inline_docs(k: int, frags=None):
             yield "".join(parts)
 
 
+EMPH_ALPHABET = ["*", "**", "_", "~~", "~", "a", " ", "[", "](x)", "b"]
+
+
+def emph_docs(k: int):
+    """all concatenations of <= k pieces over delimiter runs, brackets and letters (delimiter matching lives here)"""
+    for n in range(1, k + 1):
+        for parts in itertools.product(EMPH_ALPHABET, repeat=n):
+            yield "".join(parts)
+
+
+def gen_emph(tier):
+    yield from emph_docs(5 if tier == "quick" else 7)
+
+
 def random_docs(n: int, seed: int, max_lines=8, vocab=None):
     rnd = random.Random(seed)
     vocab = V if vocab is None else vocab
@@ -86,6 +101,7 @@ CONFIGS = {
     "cm-maxnest1": ("commonmark", {"maxNesting": 1}, [], []),
     "cm-maxnest2": ("commonmark", {"maxNesting": 2}, ["table"], []),
     "cm+defs": ("commonmark", {"inline_definitions": True, "store_labels": True}, ["table"], []),
+    "cm-fragjoin": ("commonmark", {}, ["strikethrough"], ["fragments_join"]),
     "js+breaks+xhtml0": ("js-default", {"breaks": True, "xhtmlOut": False, "langPrefix": "x\"y"}, [], []),
 }
 
